@@ -256,6 +256,9 @@ pub fn gen_names_cases(prop: &str, tier: &str, seed: u64) -> Vec<Vec<String>> {
             if !numbers && r.chance(1, 3) { names.push(format!("{fixed}{sep}{infix}.restart-000{}{sfx}", r.below(3))); }
         }
         if r.chance(1, 2) { names.push(format!("{fixed}{sep}{}{sfx}", sp.cur.clone().unwrap_or("rCURRENT".into()))); }
+        // with a custom current infix: the `rCURRENT` file of an earlier run with the standard naming
+        // next to it (a selector may ask for both)
+        if sp.cur.is_some() && r.chance(1, 2) { names.push(format!("{fixed}{sep}rCURRENT{sfx}")); }
         names.sort();
         names.dedup();
         names.retain(|n| !extra_dots(&sp, n, numbers));
